@@ -175,6 +175,11 @@ func c12Monitor(args []string) int {
 				do(cmd)
 			} else {
 				fen := wk.randomPlacement(12)
+				if rng.Chance(35) { // forced positions: one or two legal moves (single root move handling)
+					if f := wk.forcedPlacement(); f != "" {
+						fen = f
+					}
+				}
 				p, _ = position.NewPositionFen(fen)
 				do("position fen " + fen)
 			}
